@@ -9,7 +9,10 @@ THEOREMS = ["TLVerif.Props.C16." + t for t in [
     "outside_only_code_keys", "written_iff", "unchanged_not_rewritten", "changed_is_rewritten", "deleted_iff",
     "writes_only_under_outdir_or_basictl", "counts", "second_run_touches_nothing", "protected_forever",
     "history_exact", "refusal_full_fails_at", "basictl_rel_path_shape", "next_generation_accepted",
-    "each_file_written_at_most_once", "pruning_only_removes_collected"]]
+    "each_file_written_at_most_once", "pruning_only_removes_collected",
+    "legacy_refused_iff", "legacy_failed_leaves_fs_unchanged", "legacy_after_success_exact", "legacy_generated_file_wins",
+    "legacy_exempt_stale_survives", "legacy_deleted_iff", "legacy_written_iff", "legacy_next_generation_not_refused",
+    "legacy_exact_fails_at", "legacy_marker_fact"]]
 
 MARKER = "meta/meta.go"
 # keys form a consistent tree: no key is a directory of another key, none collides with DIRS
@@ -49,22 +52,49 @@ def parse_set(s):
     return set() if s == "-" else set(s.split(","))
 
 
-def oracle(c, line, out, cli):
-    """Property C16 evaluated on the implementation's observations, step by step (independent of the Lean model)."""
+LEGACY_MARKER = "tlgen2_version.txt"
+# Known defect classes of the legacy writer (known_findings.d/C16.json), reported under fixed witness lines:
+#  * `cppFilterFile` exempts every stale path ending in `.o` from deletion (documented build artefacts, by design): after a
+#    successful cpp generation the output directory does NOT hold exactly the files of that generation;
+#  * same "only empty directories" hole as OutDir.Write.
+WITNESS_LEGACY_O = "tool.loutdir cpp g:a/x.h=c1;p:x.o=zz;g:a/x.h=c1"
+WITNESS_LEGACY_EMPTYDIRS = "tool.loutdir cpp d:e;g:a/x.h=c1"
+
+
+def fmt_cpp(key, cid):
+    if cid.startswith("t") and (key.endswith(".h") or key.endswith(".cpp")):
+        return "s" + cid[1:]
+    return cid
+
+
+def oracle(c, line, out, cli, legacy=False):
+    """Property C16 evaluated on the implementation's observations, step by step (independent of the Lean model).
+    legacy=True: the legacy writer (*Gen2).WriteToDir: fixed marker added by the writer itself; for cpp the documented
+    exemption (stale paths ending in `.o` are kept) is tolerated as a known finding, nothing else may survive."""
     f = line.split(" ")
     marker, steps = f[1], f[2].split(";")
+    lang = None
+    if legacy:
+        lang = "cpp" if cli else f[1]
+        marker = LEGACY_MARKER
     if out in ("panic", "CRASH", "crash", "bad-op"):
         c.oracle_fail(line, "generator crashed / panicked while writing the output directory (%s)" % out, line)
         return
     results = [] if out == "none" else out.split(" ", 1)[1].split("|")
     files, dirs = {}, set()
     ri = 0
-    fmt = (lambda k, v: v) if cli else fmt_ids
+    if cli:
+        fmt = lambda k, v: v
+    elif legacy:
+        fmt = fmt_cpp if lang == "cpp" else (lambda k, v: v)
+    else:
+        fmt = fmt_ids
+    tag = "legacy:" if legacy else ""
     for st in steps:
         p = st.split(":")
         if p[0] == "p":
             k, v = p[1].split("=")
-            files[k] = v if cli else v   # planted files are written raw (no formatting)
+            files[k] = v
             if not outside(k):
                 dirs.update(ancestors(k))
         elif p[0] == "d":
@@ -83,24 +113,43 @@ def oracle(c, line, out, cli):
             D = parse_set(r["D"])
             w, x = parse_set(r["w"]), parse_set(r["x"])
             nonempty_files = bool(inside_before)
-            if r["o"] == "ref":
-                c.count("oracle:refused")
-                if not nonempty_files or marker in inside_before:
+            must_refuse = nonempty_files and marker not in inside_before
+            twice = legacy and not cli and marker in code
+            if r["o"] in ("ref", "dup"):
+                c.count("oracle:%s%s" % (tag, "refused" if r["o"] == "ref" else "twice"))
+                if r["o"] == "ref" and not must_refuse:
                     c.oracle_fail(line, "generation refused although the output directory is empty or has the marker", line)
+                if r["o"] == "dup" and (must_refuse or not twice):
+                    c.oracle_fail(line, "generation failed although nothing is wrong with the request", line)
                 if T != files or D != dirs or w or x:
-                    c.oracle_fail(line, "refused generation modified the output directory (or something outside it)", line)
+                    c.oracle_fail(line, "refused / failed generation modified the output directory (or something outside it)", line)
             else:
-                c.count("oracle:ok")
-                if nonempty_files and marker not in inside_before:
+                c.count("oracle:%sok" % tag)
+                if must_refuse:
                     c.oracle_fail(line, "non-empty output directory without the marker file was not refused", line)
+                elif twice:
+                    c.oracle_fail(line, "code map that already contains the marker was written", line)
                 elif not nonempty_files and dirs and marker not in inside_before:
                     # only directories: known finding class
-                    c.oracle_fail(WITNESS_EMPTYDIRS, "output directory holding only empty directories is not refused and the "
-                                  "directories are removed", line)
+                    c.oracle_fail(WITNESS_LEGACY_EMPTYDIRS if legacy else WITNESS_EMPTYDIRS,
+                                  "output directory holding only empty directories is not refused and the directories are removed", line)
+                if legacy and not cli:
+                    code[marker] = "mk"     # the legacy writer adds its marker to the generation itself
                 want_inside = {k: fmt(k, v) for k, v in code.items() if not outside(k)}
                 got_inside = {k: v for k, v in T.items() if not outside(k)}
-                if got_inside != want_inside:
-                    c.oracle_fail(line, "after a successful generation the output directory does not hold exactly this generation's files", line)
+                # the only tolerated survivors: for legacy cpp, stale paths ending in ".o" (object files), untouched
+                kept = {}
+                if legacy and lang == "cpp":
+                    kept = {k: files[k] for k in inside_before if k not in code and k.endswith(".o")}
+                    if kept and all(got_inside.get(k) == v for k, v in kept.items()):
+                        c.oracle_fail(WITNESS_LEGACY_O, "legacy cpp writer keeps stale *.o files (cppFilterFile): the output directory "
+                                      "does not hold exactly the files of the generation", line)
+                want_all = dict(want_inside)
+                want_all.update(kept)
+                if got_inside != want_all:
+                    extra = sorted(set(got_inside) - set(want_all))
+                    c.oracle_fail(line, "after a successful generation the output directory does not hold exactly this generation's files"
+                                  + (" (stale files survived: %s)" % ",".join(extra[:4]) if extra else ""), line)
                 for k, v in files.items():
                     if outside(k) and k not in code and T.get(k) != v:
                         c.oracle_fail(line, "a file outside the output directory that is not part of the generation was modified: " + k, line)
@@ -115,12 +164,49 @@ def oracle(c, line, out, cli):
                         c.oracle_fail(line, "changed / new file was not written: " + k, line)
                 if not w <= set(code):
                     c.oracle_fail(line, "a file that is not part of the generation was written: %s" % sorted(w - set(code)), line)
-                if x != inside_before - set(code):
+                if x != inside_before - set(code) - set(kept):
                     c.oracle_fail(line, "deleted files are not exactly the stale files", line)
                 for d in D:
                     if not any(k.startswith(d + "/") for k in got_inside):
                         c.oracle_fail(line, "empty directory left behind: " + d, line)
             files, dirs = T, D
+
+
+# ---------------------------------------------------------------- legacy writer (cmd/tlgen, cpp / php)
+LKEYS = ["svc/types/svc.objectId.h", "svc/headers/svc.open.h", "svc/functions/svc.openFile.h", "a/x.h", "a/y.cpp", "details/n.cpp",
+         "Makefile", "info.json", "obj/gen.o", "a.o.h", "svc/details.cpp", "../sib/s.h"]
+LFOREIGN = ["x.o", "a/x.o", "x.o.d", "a.old.h", "svc/types/y.o", "zz.txt", "lib.so", "a/b.o/c.txt", "svc/types/svc.objectId.h", "q.obj", "main.oo"]
+LIDS = ["c1", "c2", "c3", "t5", "s5", "u4"]
+
+
+def legacy_history(rng, nsteps):
+    steps = []
+    for i in range(nsteps):
+        k = rng.below(10)
+        if k < 6 or i == 0:
+            pool = list(LKEYS)
+            rng.shuffle(pool)
+            ks = pool[:rng.range(0, 6)]
+            if rng.chance(1, 25):
+                ks.append(LEGACY_MARKER)
+            steps.append("g:" + (",".join("%s=%s" % (key, rng.choice(LIDS)) for key in ks) or "-"))
+        elif k < 8:
+            steps.append("p:%s=%s" % (rng.choice(LFOREIGN), rng.choice(["zz", "c1", "s5"])))
+        elif k == 8:
+            steps.append("d:" + rng.choice(["e", "e/f", "svc/emp", "k.o"]))
+        else:
+            steps.append("r:" + rng.choice([LEGACY_MARKER, LEGACY_MARKER, "a/x.h", "x.o"]))
+    return ";".join(steps)
+
+
+LPRE = "int#a8509bda ? = Int;\nlong#22076cba ? = Long;\nstring#b5286e24 ? = String;\n"
+LSCHEMAS = [
+    LPRE + "svc.objectId id:long = svc.ObjectId;\nsvc.open x:int name:string = svc.Open;\nother.thing o:svc.objectId = other.Thing;\n"
+           "---functions---\n@read svc.openFile id:svc.objectId = svc.Open;\n",
+    LPRE + "svc.point x:int y:int = svc.Point;\nother.thing o:svc.point = other.Thing;\n",
+    LPRE + "svc.objectId id:long = svc.ObjectId;\nsvc.other x:int = svc.Other;\n---functions---\n@read svc.origin id:svc.objectId = svc.Other;\n",
+    LPRE + "orders.order id:long = orders.Order;\n---functions---\n@read orders.open id:long = orders.Order;\n",
+]
 
 
 def history(rng, nsteps):
@@ -153,6 +239,7 @@ SCHEMAS = [
 
 
 def run(c):
+    c.facts(["ToolLegacy"])
     c.lean(MODULES, THEOREMS)
     model = c.model_exe()
     impl = c.harness("htool", overlays=overlays())
@@ -217,6 +304,58 @@ def run(c):
     res = c.tie("outcli", cli_lines, impl, model, env=env, jobs=16)
     for l, a, _ in res:
         oracle(c, l, a, True)
+    # ---- legacy writer (*Gen2).WriteToDir, in-process with abstract code maps
+    llines = [l for l in lines if l.startswith("tool.loutdir")]
+    LA = "g:a/x.h=c1,svc/types/svc.objectId.h=c2"
+    LB = "g:a/x.h=t5,svc/headers/svc.open.h=c3"
+    lalpha = [LA, LB, "p:x.o=zz", "p:x.o.d=zz", "r:" + LEGACY_MARKER, "d:e/f"]
+    for n in range(1, (5 if c.thorough else 4)):
+        for combo in itertools.product(lalpha, repeat=n):
+            if any(s.startswith("g:") for s in combo):
+                llines.append("tool.loutdir cpp %s" % ";".join(combo))
+    for _ in range(4000 if c.thorough else 900):
+        llines.append("tool.loutdir %s %s" % (rng.choice(["cpp", "cpp", "cpp", "php"]), legacy_history(rng, rng.range(2, 6))))
+    llines += [WITNESS_LEGACY_O, WITNESS_LEGACY_EMPTYDIRS]
+    res = c.tie("legacy-outdir", llines, impl, model, env=env)
+    for l, a, _ in res:
+        oracle(c, l, a, False, legacy=True)
+    # ---- legacy writer through the real `tlgen -language=cpp` binary
+    lcombos = [(o, s) for o in range(3) for s in range(len(LSCHEMAS))]
+    llists = helper(impl, ["tool.lgenlist %d %s" % (o, hxt(LSCHEMAS[s])) for o, s in lcombos], env, jobs=12)
+    lgl = {}
+    for (o, s), out in zip(lcombos, llists):
+        if not out.startswith("ok "):
+            c.oracle_fail("tool.lgenlist %d %s" % (o, hxt(LSCHEMAS[s])), "tlgen -language=cpp failed on a trivial schema: " + out)
+            continue
+        lgl[(o, s)] = out.split(" ")[1]
+    lcli = [l for l in lines if l.startswith("tool.loutcli")]
+    for i in range(60 if c.thorough else 14):
+        steps = []
+        o = rng.below(3)
+        prev = None
+        for j in range(rng.range(2, 3)):
+            s_ = rng.below(len(LSCHEMAS))
+            if s_ == prev:
+                s_ = (s_ + 1) % len(LSCHEMAS)
+            prev = s_
+            if (o, s_) not in lgl:
+                continue
+            k = rng.below(6) if j > 0 else 9
+            if k == 0:
+                steps.append("p:%s=zq1" % rng.choice(["x.o", "svc/types/y.o", "x.o.d", "a.old.h", "svc/zz.txt"]))
+            elif k == 1:
+                steps.append("p:x.o=zq1")
+                steps.append("p:%s=zq2" % rng.choice(["x.o.d", "a.old.h"]))
+            elif k == 2 and j > 0:
+                steps.append("r:" + LEGACY_MARKER)
+            elif k == 3:
+                steps.append("d:" + rng.choice(["e/f", "svc/emp"]))
+            steps.append("g:%s:%d:%s" % (lgl[(o, s_)], o, hxt(LSCHEMAS[s_])))
+        if steps:
+            lcli.append("tool.loutcli cpp %s" % ";".join(steps))
+    res = c.tie("legacy-outcli", lcli, impl, model, env=env, jobs=16)
+    for l, a, _ in res:
+        oracle(c, l, a, True, legacy=True)
     c.extra["rule"] = ("tool.outdir: every history of length <= %d over {gen A, gen B, gen without marker, plant foreign file, remove marker, "
                        "plant empty dir} + random histories of 2-6 steps over 11 keys (incl. two outside the output directory), 8 content "
                        "ids (gofmt-unformatted / tab-expanded / unparsable variants), foreign files and directories, marker removal, run "
